@@ -323,6 +323,15 @@ def typed_mutation_streams(rng, tier, per_type=None, max_len=400):
                         doc = b"\x82" + doc + b"\x82\x01\x02"
                     mops_.append(f"tdec {rt.name} {gen.hexb(doc)} #carry")
                     mmops.append(f"tdec {rt.desc_s} {gen.hexb(doc)}")
+    # the fixed-arity array types (Duration, SystemTime, addresses, ranges) given arrays of hundreds of elements: whatever counts the elements counts past 255
+    for rt in registry():
+        if rt.enconly or rt.desc_s not in ("duration", "systime", "opt(duration)"):
+            continue
+        for n in (3, 254, 255, 256, 257, 258, 300, 511, 512, 513, 1000):
+            body = b"\x01\x02" + b"\x03" * (n - 2)
+            for doc in (gen.head(4, n) + body, b"\x9f" + body + b"\xff", gen.head(4, n) + body[:-1]):
+                mops_.append(f"tdec {rt.name} {gen.hexb(doc)} #long")
+                mmops.append(f"tdec {rt.desc_s} {gen.hexb(doc)}")
     # sets and maps from arrays / maps that repeat an element / a key (in the same or another head width): well-formed input, the collection's own
     # insert decides (the later key wins), the item is consumed to its end
     for rt in registry():
